@@ -25,6 +25,12 @@ pub fn ne_bytes_u32(x: u32) -> (r: [u8; 4])
     x.to_ne_bytes()
 }
 
+/// layout facts for the submodule (global layout declarations are only visible in the declaring module)
+pub proof fn lemma_ctor_layouts()
+    ensures size_of::<MemoryArea>() == 24,
+{
+}
+
 pub mod ctors {
 use super::*;
 use std::boxed::Box;
@@ -101,6 +107,30 @@ impl EFIMemoryMapTag {
 //@        hdr_of(&*r).typ.0 == 17, hdr_of(&*r).size == 16 + efi_mmap@.len(),
 //@        val_size(&*r) as int == round8(16 + efi_mmap@.len() as int),
 //@        obj_bytes(&*r).subrange(8, 16 + efi_mmap@.len() as int) == le32(desc_size).add(le32(desc_version)).add(efi_mmap@),
+//@end
+}
+impl MemoryMapTag {
+//@extract multiboot2/src/memory_map.rs :: impl MemoryMapTag :: fn new
+//@  ret r
+//@  rewrite /Self::ID/ => /TagType::Mmap/
+//@  rewrite /\(mem::size_of::<MemoryArea>\(\) as u32\)\.to_ne_bytes\(\)/ => /ne_bytes_u32(mem::size_of::<MemoryArea>() as u32)/
+//@  rewrite /0_u32\.to_ne_bytes\(\)/ => /ne_bytes_u32(0_u32)/
+//@  rewrite /slice::from_raw_parts\((\w+), (\w+)\)/ => /bytes_from_raw_parts(\1, \2)/
+//@  rewrite /new_boxed\(header, &\[&(\w+), &(\w+), (\w+)\]\)/ => /{ let p0: &[u8] = \1.as_slice(); let p1: &[u8] = \2.as_slice(); let parts: [&[u8]; 3] = [p0, p1, \3]; proof { assert(parts@ =~= Seq::<&[u8]>::empty().push(p0).push(p1).push(\3)); } new_boxed(header, parts.as_slice()) }/
+//@  prologue proof { lemma_mb2_layouts(); lemma_ctor_layouts(); }
+//@  prologue let ghost arg = areas;
+//@  spec:
+//@    requires
+//@        // `areas` is a valid shared slice (type-system guarantee): dereferenceable, 24 bytes per entry
+//@        tslice_wf(areas, 24), val_size(areas) == 24 * areas@.len(),
+//@        16 + 24 * areas@.len() <= u32::MAX,
+//@    ensures
+//@        tag_wf(&*r),
+//@        hdr_of(&*r).typ.0 == 6, hdr_of(&*r).size == 16 + 24 * areas@.len(),
+//@        val_size(&*r) as int == round8(16 + 24 * areas@.len() as int),
+//@        // entry size 24, entry version 0, then a byte copy of the argument array
+//@        obj_bytes(&*r).subrange(8, 16 + 24 * areas@.len() as int)
+//@            == le32(24).add(le32(0)).add(mem_at(slice_prov(areas), slice_addr(areas) as int, 24 * areas@.len() as int)),
 //@end
 }
 } // mod ctors
